@@ -82,6 +82,17 @@ func (x *vc) storeInvariant(fr *frame, st *state, addr ssa.Value, val ssa.Value,
 	switch a := addr.(type) {
 	case *ssa.FieldAddr:
 		k := fieldKey(a.X.Type(), a.Field)
+		if fr.top && x.topFC != nil {
+			for _, as := range x.topFC.atstores {
+				if as.field != k {
+					continue
+				}
+				env := x.contractEnv(fr, st, nil)
+				env.vars["value"] = v
+				x.oblige(st, "storearg", k+"."+as.cl.tag, x.evalBool(env, as.cl.expr), pos, "clause for every store to "+k+": "+as.cl.text, false)
+				as.seen = true
+			}
+		}
 		if rg, ok := x.p.cons.fieldRange[k]; ok && v.T != "" {
 			x.oblige(st, "fieldrange", "", and(app("<=", rg[0], v.T), app("<=", v.T, rg[1])), pos, "invariant: "+rg[0]+" <= "+k+" <= "+rg[1], true)
 		}
@@ -113,6 +124,12 @@ func (x *vc) allocInvariant(st *state, al *ssa.Alloc, pos string) {
 	s, ok := pt.Elem().Underlying().(*types.Struct)
 	if !ok || x.p.cons.nonnil == nil {
 		return
+	}
+	// a local that is filled by a whole-struct store (copy of an existing value, e.g. a range variable) is not a new object
+	for _, ref := range *al.Referrers() {
+		if stI, ok := ref.(*ssa.Store); ok && stI.Addr == ssa.Value(al) {
+			return
+		}
 	}
 	for i := 0; i < s.NumFields(); i++ {
 		k := fieldKey(pt.Elem(), i)
